@@ -355,3 +355,23 @@ Proof.
   unfold op_add. rewrite Gt, Gp, G, Hb. cbn [negb]. rewrite Eid.
   destruct (collides t p id) eqn:Col; [|reflexivity]. exfalso. apply NS. now apply (collides_iff_sibling t p ch id Wt Gc).
 Qed.
+
+(* ---- from_dict: an item whose data_id is already below its parent stops the whole call ---- *)
+Theorem from_dict_item_refused w ti p d e ch t id :
+  WFw w -> get_tree w ti = Some t ->
+  (match e with Some x => Some x | None => calc_id (calc t) d end) = Some id ->
+  sibling_with (forest_of t) p id 0 ->
+  fst (from_dict_item ti p (DI d e ch) w) = Err EUnique.
+Proof.
+  intros H Gt Eid S. cbn [from_dict_item].
+  assert (X := add_refused w ti p d e None BNone t id H Gt Eid S (fun _ _ => eq_refl)).
+  destruct (op_add w ti p d e None BNone) as [[r|err] w1]; cbn [fst] in X; [discriminate|]. now injection X as ->.
+Qed.
+
+Lemma from_dict_items_err ti p x l w err : fst (from_dict_item ti p x w) = Err err ->
+  fst (from_dict_items ti p (x :: l) w) = Err err.
+Proof. cbn [from_dict_items]. destruct (from_dict_item ti p x w) as [[r|e0] w2]; cbn [fst]; [discriminate|auto]. Qed.
+
+Lemma from_dict_items_step ti p x l w r w2 : from_dict_item ti p x w = (Ok r, w2) ->
+  from_dict_items ti p (x :: l) w = from_dict_items ti p l w2.
+Proof. cbn [from_dict_items]. now intros ->. Qed.
